@@ -45,12 +45,19 @@ type c17Case struct {
 	TLS bool `json:"tls,omitempty"`
 	// LogFile: the export logs to a file (ExportOptions.Log.Output is a path), which Close has to close - once
 	LogFile bool `json:"log_file,omitempty"`
+	// RateLimit: rate limiting is on with a per-connection allowance of 3 requests and 1/s (everything else generous);
+	// "flood" steps send more than that on every open connection, so that some requests are refused. A connection
+	// whose last request was refused is as idle afterwards as any other.
+	RateLimit bool `json:"rate_limit,omitempty"`
 }
 
 func genC17(t *rapid.T) c17Case {
-	c := c17Case{MaxConn: rapid.IntRange(1, 6).Draw(t, "max"), IdleMs: pick(t, "idle", 100, 150, 200, 300, 60000, 60000), Via: pick(t, "via", "listen", "export"), TLS: rapid.IntRange(0, 2).Draw(t, "tls") == 0, LogFile: rapid.IntRange(0, 2).Draw(t, "logfile") == 0}
+	c := c17Case{MaxConn: rapid.IntRange(1, 6).Draw(t, "max"), IdleMs: pick(t, "idle", 100, 150, 200, 300, 60000, 60000), Via: pick(t, "via", "listen", "export"), TLS: rapid.IntRange(0, 2).Draw(t, "tls") == 0, LogFile: rapid.IntRange(0, 2).Draw(t, "logfile") == 0, RateLimit: rapid.IntRange(0, 2).Draw(t, "ratelimit") == 0}
 	n := rapid.IntRange(2, 9).Draw(t, "n")
 	for i := 0; i < n; i++ {
+		if c.RateLimit && rapid.IntRange(0, 2).Draw(t, "flood") == 0 {
+			c.Steps = append(c.Steps, c17Step{Kind: "dial", N: rapid.IntRange(1, 3).Draw(t, "fk")}, c17Step{Kind: "flood", N: rapid.IntRange(1, 4).Draw(t, "fn")}, c17Step{Kind: "idle", N: 1})
+		}
 		st := c17Step{Kind: pick(t, "kind", "dial", "dial", "dial", "null", "close", "close", "idle", "refuse", "stop", "closenfs", "unexport"), N: rapid.IntRange(1, 8).Draw(t, "k")}
 		c.Steps = append(c.Steps, st)
 		if c.Via == "export" && rapid.IntRange(0, 2).Draw(t, "inflight") == 0 {
@@ -70,6 +77,20 @@ type c17Conn struct {
 	dead   bool // observed EOF/reset
 }
 
+// c17Answered: a NULL call is answered at all (served or refused by the rate limiter); refused reports which.
+func c17Answered(c net.Conn, xid uint32, d time.Duration) (answered, refused bool) {
+	c.SetDeadline(time.Now().Add(d))
+	if _, err := c.Write(nfsx.Frame(nfsx.Call(xid, nfsx.ProgNFS, 3, 0, nfsx.AuthNone(), nfsx.AuthNone(), nil))); err != nil {
+		return false, false
+	}
+	rec, err := nfsx.ReadRecord(c, 1<<20)
+	if err != nil {
+		return false, false
+	}
+	rp, err := nfsx.ParseReply(rec)
+	return err == nil && rp.Xid == xid, err == nil && rp.Stat == nfsx.MsgDenied
+}
+
 func c17Null(c net.Conn, xid uint32, d time.Duration) bool {
 	c.SetDeadline(time.Now().Add(d))
 	if _, err := c.Write(nfsx.Frame(nfsx.Call(xid, nfsx.ProgNFS, 3, 0, nfsx.AuthNone(), nfsx.AuthNone(), nil))); err != nil {
@@ -80,7 +101,8 @@ func c17Null(c net.Conn, xid uint32, d time.Duration) bool {
 		return false
 	}
 	rp, err := nfsx.ParseReply(rec)
-	return err == nil && rp.Xid == xid && rp.Stat == nfsx.MsgAccepted
+	// (a refusal by the rate limiter is an answer too: the connection is being served)
+	return err == nil && rp.Xid == xid && (rp.Stat == nfsx.MsgAccepted || rp.Stat == nfsx.MsgDenied)
 }
 
 // sawEOF reports whether the peer closed the connection within d.
@@ -131,6 +153,12 @@ func runC17(tb stat.TB, c c17Case) {
 	v := vfs.New()
 	v.SeedFile("/f", 0644, 0, 0, []byte("x"))
 	eopts := absnfs.ExportOptions{MaxConnections: c.MaxConn, IdleTimeout: time.Duration(c.IdleMs) * time.Millisecond, EnableDirCache: true, MaxWorkers: 2}
+	if c.RateLimit {
+		rl := absnfs.DefaultRateLimiterConfig()
+		rl.GlobalRequestsPerSecond, rl.PerIPRequestsPerSecond, rl.PerIPBurstSize = 1000000, 1000000, 1000000
+		rl.PerConnectionRequestsPerSecond, rl.PerConnectionBurstSize = 1, 3
+		eopts.EnableRateLimiting, eopts.RateLimitConfig = true, &rl
+	}
 	var clientTLS *tls.Config
 	if c.TLS {
 		p, err := getPKI()
@@ -426,8 +454,32 @@ func runC17(tb stat.TB, c c17Case) {
 					continue
 				}
 				xid++
+				if c.RateLimit {
+					if a, _ := c17Answered(cc.c, xid, 1500*time.Millisecond); !a {
+						cc.dead = true
+					}
+					continue
+				}
 				if !c17Null(cc.c, xid, 1500*time.Millisecond) {
 					cc.dead = true // may have been reaped for idleness: legal
+				}
+			}
+			touch = time.Now()
+		case "flood":
+			for _, cc := range conns {
+				if cc.closed || cc.dead || !cc.served {
+					continue
+				}
+				for k := 0; k < st.N+3 && !cc.dead; k++ {
+					xid++
+					a, refused := c17Answered(cc.c, xid, 1500*time.Millisecond)
+					if !a {
+						cc.dead = true
+					}
+					if refused {
+						stat.Label("request_refused_by_rate_limiter_on_a_counted_connection", 1)
+						nt = true
+					}
 				}
 			}
 			touch = time.Now()
